@@ -208,6 +208,11 @@ func init() {
 			s.Leaves += runs + 2
 			s.Extra["linear_runs"] = runs + 2
 			s.Extra["linear_nodes"] = n
+			if err := sparsePass(cfg, s, func(f string) (int, error) {
+				return stackLinear(cfg, f, runs, steps)
+			}); err != nil {
+				return nil, err
+			}
 			return s, nil
 		},
 		newSys: func(variant string) (func() tt.Sys, any) {
